@@ -22,6 +22,9 @@ MACROS = {"all", "exists", "exists_one", "map", "filter"}
 NONSTANDARD = {"min", "reduce"}          # interpreter-only extensions, not CEL macros: outside the property's domain
 
 
+ACTIVATION_ATTRS = {a for a in dir(ev.Activation) if not a.startswith("__")} | {"functions", "identifiers", "package", "annotations"}
+
+
 def repo_root():
     return os.path.dirname(os.path.dirname(os.path.dirname(os.path.abspath(celpy.__file__))))
 
@@ -94,6 +97,8 @@ def regions(tree, act):
             r.add("C03-object-construction")
         if n.data == "dot_ident_arg":
             r.add("C03-dot-ident-call")
+        if n.data == "ident" and n.children[0].value in ACTIVATION_ATTRS:
+            r.add("C03-activation-attribute-names")
         if n.data == "ident_arg" and n.children[0].value in ("has", "dyn"):
             args = n.children[1].children if len(n.children) == 2 else []
             if len(args) != 1:
